@@ -801,3 +801,23 @@ Definition run_C02_xsv_t (ft : ftsel) (ks : list xkey) (x : list feat) : val :=
                                      | Some (Some (ty, a, b, sd)) => VL [VOpt VS ty; VI a; VI b; VS [sd]]
                                      | _ => VNone end) recs)]]
   end.
+
+(* op 6: sequences + features GFF (write_gff / read_gff, gff.py:107-114, 168-174): the features are written like a feature file,
+   "##FASTA" and the sequences follow; on reading, BioBasket.fts groups the features by seqid and attaches them to the sequences
+   in basket order (seq.py:752-760); features without seqid or naming no sequence are dropped (with a warning) *)
+Definition feat_seqid (f : feat) : option str := match aget k_seqid (fmeta f) with Some (AS s) => Some s | _ => None end.
+Definition attach (ids : list str) (x : list feat) : list feat :=
+  flat_map (fun i => filter (fun f => opt_str_eqb (feat_seqid f) (Some i)) x) ids.
+Definition run_C02_seqgff (ids : list str) (x : list feat) : val :=
+  match map_opt mk_feature x with
+  | None => VL [VB false; VB false; VE e_value]
+  | Some x' =>
+      match write_gff_h x' with
+      | None => VL [VB false; VB false; VE e_type]
+      | Some w1 =>
+          match read_gff (w1 ++ bs "##FASTA"%bs ++ nl ++ bs ">s"%bs ++ nl ++ bs "ACGT"%bs ++ nl) with
+          | None => VL [VB false; VB false; VE e_value]
+          | Some x1 => VL [VB (wfh_C02 x' && wfh_C02 x1); VB (rt_C02 x'); VL [VS w1; v_feats (attach ids x1)]]
+          end
+      end
+  end.
